@@ -125,7 +125,8 @@ def main():
         else:
             violations.append(("oracle_failure", case, q, reply))
     rc = 0
-    os.makedirs(os.path.join(H.VERIF, "replays"), exist_ok=True)
+    replay_dir = os.environ.get("VERIF_REPLAY_DIR") or os.path.join(H.VERIF, "replays")
+    os.makedirs(replay_dir, exist_ok=True)
     printed = set()
     for kf, case in known_hits:
         if kf["what"] not in printed:
@@ -133,7 +134,7 @@ def main():
             print("KNOWN-FINDING: property=%s %s" % (prop, kf["what"]))
     if violations:
         kind, case, q, reply = min(violations, key=lambda v: len(json.dumps(v[1], default=str)))
-        path = os.path.join(H.VERIF, "replays", "%s-%d-oracle.json" % (prop, seed))
+        path = os.path.join(replay_dir, "%s-%d-oracle.json" % (prop, seed))
         H.write_json(path, {"kind": kind, "property": prop, "component": component_of(spec, case), "case": case,
                             "query": q.line, "implementation_requires": q.expect, "spec_says": reply, "note": q.note,
                             "replay_cmd": "./check %s --replay %s" % (prop, os.path.relpath(path, H.VERIF))})
@@ -145,7 +146,7 @@ def main():
             case, err = outcome.harness_errors[0]
             proof_problems.append("the harness could not observe the implementation on %d cases (its interface changed?), e.g. %s on %s"
                                   % (len(outcome.harness_errors), err, json.dumps(case, default=str)[:300]))
-        path = os.path.join(H.VERIF, "replays", "%s-%d-unproved.json" % (prop, seed))
+        path = os.path.join(replay_dir, "%s-%d-unproved.json" % (prop, seed))
         body = {"kind": "proof_broken" if proof_problems else "correspondence_broken", "property": prop,
                 "proof_problems": proof_problems,
                 "correspondence_disagreements": len(outcome.corr_fail),
@@ -192,7 +193,8 @@ def main():
                 "build_seconds": round(build_s, 2),
             },
         }
-        H.write_json(os.path.join(H.VERIF, "evidence", prop + ".json"), ev)
+        # VERIF_EVIDENCE_DIR: used by tools/seedtest.sh so that runs against a seeded change never overwrite the evidence of the real tree
+        H.write_json(os.path.join(os.environ.get("VERIF_EVIDENCE_DIR") or os.path.join(H.VERIF, "evidence"), prop + ".json"), ev)
     print("%s %s seed=%d: %d cases, %d queries, %d theorems, corr_fail=%d oracle_fail=%d proof_problems=%d  [%.1fs]" % (
         prop, tier, seed, outcome.cases, outcome.queries, len(theorems), len(outcome.corr_fail), len(outcome.oracle_fail),
         len(proof_problems), time.time() - t0))
